@@ -536,6 +536,9 @@ def c_fixed_base_digits(it, recv, a):
     k, gen, digits = a
     c_assert_canonical_jubjub_scalar(it, None, [k])                  # s is a canonical JubJub scalar (C14)
     pacc, sacc, xya = H("point_acc", 2), H("scalar_acc", 2), H("xy_alphas", 1)
+    # the honest-witness pass over the digits is not modelled, but it can leave the function: Err(UnsupportedWNAF2k) for a digit
+    # outside {-1, 0, 1} (the ONLY exit before the gates are appended)
+    it.ctx.exits.append(("unmodelled_exit", "return+try", "xy_alphas"))
     # the table hard-wired into the selectors: round i (most significant digit first) uses normalize([2^(255-i)] generator),
     # every entry derived from the GENERATOR ITSELF by repeated doubling
     mult = VArr([VOpaque("normalize", [dbl(gen, 255 - i)]) for i in range(256)], "vec")
@@ -598,3 +601,112 @@ BITS = "src/composer/bits.rs"
 for n in (1, 2, 8, 252, 256):
     unit(f"bits.component_decomposition[{n}]", BITS, "Composer::component_decomposition", [SELF, ("scalar", sym("scalar"))],
          c_component_decomposition(n), consts=dict(CONSTS, N=n))
+
+
+# ------------------------------------------------------------------ range gadget, per WIDTH (instances; all witness values symbolic)
+# Backstop for the Verus units of src/composer/range.rs (which hold for all widths but depend on textual anchors): the real
+# function is executed for a concrete width and must emit exactly the documented base-4 layout.
+RG = "src/composer/range.rs"
+BITS_MSB_FIRST = [Sym(f"bit{255 - i}") for i in range(256)]
+
+
+def c_set_witness(it, recv, a):
+    from vlib.ring import _deref
+    c = _deref(recv)
+    wire = {"WiredWitness::A": "a", "WiredWitness::B": "b", "WiredWitness::C": "c", "WiredWitness::D": "d"}[canon(a[0])]
+    c.fields[wire] = _deref(a[1])
+    return UNIT
+
+
+RANGE_CON = {
+    "Constraint::range": c_internal("range"),
+    ".set_witness": c_set_witness,
+    # ASSUMED (bit_iterator.rs, own tests): BitIterator8 over the little-endian bytes yields the 256 bits most significant first
+    "BitIterator8::new": lambda it, recv, a: VIter(list(BITS_MSB_FIRST)),
+    ".collect": lambda it, recv, a: VArr(list(recv.items), "vec") if isinstance(recv, VIter) else NotImplemented,
+    "self[]": lambda it, recv, a: VOpaque("value_of", [a[0]]),
+    # u64 -> field embedding of a small integer expression over bits (quad <= 3, a single bit): the identity on the polynomial
+    "BlsScalar::from": lambda it, recv, a: a[0] if isinstance(a[0], int) else P(a[0]),
+    "self.range_check_even": c_op("range_check_even"),
+    "recompose_bits": lambda it, recv, a: VOpaque("recompose_bits", [a[1], a[2]]),
+    "BlsScalar::pow_of_2": lambda it, recv, a: VOpaque("pow_of_2", [a[0]]),
+}
+
+
+def c_range_check_even(nb):
+    def c(it, recv, a):
+        """documented layout: ceil(nb/8) selected rows of four quads (wires D, C, B, A in chain order, unused leading positions on
+        the zero witness), one unselected row carrying the last accumulator on D, closing equality with the checked witness;
+        accumulator j is the base-4 prefix of the value's top j quads of the nb-bit window"""
+        w = a[0]
+        if nb == 0:
+            ev(it, "append_gate", cons({"q_l": 1, "a": w}))
+            return UNIT
+        ng = (nb + 7) // 8
+        nq = 4 * ng
+        pad = 1 + nq - nb // 2
+        acc = P(0)
+        at = {}
+        for i in range(pad, nq + 1):
+            bi = (nq - i) * 2
+            acc = acc * 4 + P(Sym(f"bit{bi}")) + P(Sym(f"bit{bi + 1}")) * 2
+            at[i] = c_append_witness(it, None, [acc])
+        pos = lambda i: at.get(i, ZERO)
+        for t in range(ng):
+            ev(it, "append_custom_gate", cons({"sel": VOpaque("sel:range"), "a": pos(4 * t + 3), "b": pos(4 * t + 2), "c": pos(4 * t + 1), "d": pos(4 * t)}))
+        ev(it, "append_custom_gate", cons({"d": pos(nq)}))
+        ev(it, "assert_equal", at[nq], w)
+        return UNIT
+    return c
+
+
+for nb_ in (0, 2, 4, 6, 8, 10, 12, 16, 18, 64, 250, 252, 254, 256):
+    u = unit(f"range.range_check_even[bits={nb_}]", RG, "Composer::range_check_even", [SELF, ("witness", sym("witness")), ("num_bits", (lambda nb_=nb_: nb_))],
+             c_range_check_even(nb_), consts=dict(CONSTS))
+    u.extra_contracts = RANGE_CON
+
+
+def c_range_check(nb):
+    def c(it, recv, a):
+        """even widths: the base-4 chain; odd widths: value = lower + 2^(nb-1) * top with lower on nb-1 bits and top boolean"""
+        v = a[0]
+        if nb % 2 == 0:
+            ev(it, "range_check_even", v, nb)
+            return UNIT
+        top = nb - 1
+        lower = c_append_witness(it, None, [VOpaque("recompose_bits", [0, top])])
+        ev(it, "range_check_even", lower, top)
+        tb = c_append_witness(it, None, [P(VOpaque("idx", [VOpaque("to_bits", [VOpaque("value_of", [v])]), top]))])     # the top bit of the value
+        ev(it, "component_boolean", tb)
+        ev(it, "gate_add", cons({"q_l": 1, "q_r": VOpaque("pow_of_2", [top]), "a": lower, "b": tb}))
+        rec = fresh_w(it)
+        ev(it, "assert_equal", rec, v)
+        return UNIT
+    return c
+
+
+for nb_ in (0, 1, 2, 3, 9, 64, 253, 254, 255, 256):
+    u = unit(f"range.range_check[bits={nb_}]", RG, "Composer::range_check", [SELF, ("value", sym("value")), ("num_bits", (lambda nb_=nb_: nb_))],
+             c_range_check(nb_), consts=dict(CONSTS), trace_only=True, tracked=("self",))
+    u.extra_contracts = RANGE_CON
+
+
+# the two PUBLIC entry points: exactly one call of the internal check with the stated width, nothing else, on every call
+def c_entry(kind, n):
+    def c(it, recv, a):
+        if kind == "bits":
+            ev(it, "range_check", a[0], n)
+        else:
+            ev(it, "range_check_even", a[0], min(2 * n, 256))
+        return UNIT
+    return c
+
+
+for n_ in (0, 1, 2, 8, 16, 255, 256):
+    u = unit(f"range.component_range_bits[BITS={n_}]", RG, "Composer::component_range_bits", [SELF, ("witness", sym("witness"))], c_entry("bits", n_),
+             consts=dict(CONSTS, BITS=n_))
+    u.extra_contracts = RANGE_CON
+for n_ in (0, 1, 4, 8, 128, 129, 200):
+    u = unit(f"range.component_range[BIT_PAIRS={n_}]", RG, "Composer::component_range", [SELF, ("witness", sym("witness"))], c_entry("pairs", n_),
+             consts=dict(CONSTS, BIT_PAIRS=n_))
+    u.extra_contracts = RANGE_CON
